@@ -75,6 +75,7 @@ class Unit:
 class UnitResult:
     def __init__(s, unit):
         s.unit = unit
+        s.never_evaluated = None   # post clauses no explorer ever evaluated (a clause whose `on` kinds never occur decides nothing)
         s.obls = []
         s.paths = 0
         s.outcomes = {}
@@ -123,6 +124,8 @@ def _explore(unit, par):
         body = unit.body_of(fi) if unit.body_of else fi.node.body
         outs = ex.block(body, p)
         reached = False
+        evaluated = set()
+        out["never_evaluated"] = []
         for o in outs:
             if not ex.owns(o.path):
                 continue
@@ -138,13 +141,15 @@ def _explore(unit, par):
             elif o.kind in ("break", "continue"):
                 raise Unsupported(f"{o.kind} outside loop")
             for c in unit.post:
-                if ctx.kind in c.on or "any" in c.on:
+                if ctx.kind in c.on or "any" in c.on or (ctx.kind == "return" and "normal" in c.on):
                     g = c.fn(ctx)
+                    evaluated.add(c.name)
                     if g is not None:
                         ex.oblig(c.name, "clause", o.path, g)
             if not reached and o.path.feasible():
                 reached = True
         out["canary"] = reached
+        out["never_evaluated"] = [c.name for c in unit.post if c.name not in evaluated]
     except Unsupported as e:
         out["error"] = f"unsupported: {e}"
     except KeyError as e:
@@ -215,6 +220,8 @@ def run_unit(unit) -> UnitResult:
         res.crash = res.crash or part["crash"]
         res.canary = bool(res.canary) or bool(part["canary"])
         res.obls += [Obligation(*t) for t in part["obls"]]
+        ne = set(part.get("never_evaluated", []))
+        res.never_evaluated = ne if res.never_evaluated is None else (res.never_evaluated & ne)
         for k, v in part.get("stats", {}).items():
             if part is parts[0]:
                 STATS[k] = v
